@@ -106,7 +106,7 @@ def run_case(case):
         if bad:
             v.append(viol(classify(kind, cfg, bad, case), "cells differ from the definition: (cell, got, expected) = %s" % (bad,),
                           observed=sorted(got.items(), key=repr), expected=sorted(exp.items(), key=repr)))
-    return res(v, nt=(kind, tuple(docs), repr(cfg)) if exp else None, out="cells=%d" % min(len(exp), 9))
+    return res(v, nt=(kind, tuple(docs), repr(cfg), repr(case.get("times"))) if exp else None, out="cells=%d" % min(len(exp), 9))
 
 
 def classify(kind, cfg, bad, case):
